@@ -438,6 +438,20 @@ fn limits_text(n: u32, seed: u64) -> String {
         if rng.chance(1, 12) {
             s.push_str(&format!("{name:<26}{:<21}{:<21}{unit:<10}\n", "1", "2"));
         }
+        // ... or a DIFFERENT name that a careless normalisation would identify with it (other letter
+        // case, other kernel's capitalisation): distinct keys of the map, distinct entries of the report,
+        // whose relative order must not be left to the hash order
+        if rng.chance(1, 5) {
+            let twin = match rng.below(4) {
+                0 => name.to_uppercase(),
+                1 => name.to_lowercase(),
+                2 => name.replace("cpu", "CPU").replace("Max", "max"),
+                _ => name.chars().enumerate().map(|(k, ch)| if k % 2 == 0 { ch.to_ascii_uppercase() } else { ch }).collect(),
+            };
+            if twin != name {
+                s.push_str(&format!("{twin:<26}{:<21}{:<21}{unit:<10}\n", val(&mut rng), val(&mut rng)));
+            }
+        }
     }
     s
 }
